@@ -244,6 +244,11 @@ impl BuiltInFunction {
                     }
                 }
 
+                // the bridge calls the callback before it first looks at the length: an empty list has nothing to hand it
+                if v.0.borrow().is_empty() {
+                    return Ok((Some(Primitive::Vector(GcVector::with_capacity(0))), None));
+                }
+
                 Ok((
                     None,
                     Some(Box::new(MapOp::new(
@@ -322,6 +327,10 @@ impl BuiltInFunction {
                     fn finish(&self) -> Result<Option<Primitive>> {
                         Ok(Some(Primitive::Vector(self.filter_result.clone())))
                     }
+                }
+
+                if v.0.borrow().is_empty() {
+                    return Ok((Some(Primitive::Vector(GcVector::with_capacity(0))), None));
                 }
 
                 Ok((
